@@ -48,6 +48,9 @@ func buildOverlay(dirs []string) (map[string][]byte, error) {
 	for dir, pkg := range pkgOf {
 		ov[filepath.Join("/repo", dir, "zz_verif_rt.go")] = []byte(strings.Replace(string(rt), "PKGNAME", pkg, 1))
 	}
+	if err := addGenerated(ov); err != nil {
+		return nil, err
+	}
 	return ov, nil
 }
 
@@ -78,8 +81,9 @@ func main() {
 		tier := fs.Int("tier", 0, "0 quick, 1 thorough")
 		workers := fs.Int("workers", 16, "")
 		unwind := fs.Int("unwind", 3000, "")
+		budget := fs.Int("budget", 0, "seconds")
 		fs.Parse(os.Args[2:])
-		os.Exit(cmdExplore(*pkg, *h, *tier, *workers, *unwind))
+		os.Exit(cmdExplore(*pkg, *h, *tier, *workers, *unwind, *budget))
 	case "check":
 		os.Exit(cmdCheck(os.Args[2:]))
 	case "replay":
@@ -91,7 +95,7 @@ func main() {
 	os.Exit(2)
 }
 
-func cmdExplore(pkg, h string, tier, workers, unwind int) int {
+func cmdExplore(pkg, h string, tier, workers, unwind, budget int) int {
 	ov, err := buildOverlay([]string{harnessRoot()})
 	if err != nil {
 		fmt.Println(err)
@@ -108,7 +112,7 @@ func cmdExplore(pkg, h string, tier, workers, unwind int) int {
 		fmt.Println("no such harness", h)
 		return 2
 	}
-	res := exploreHarness(prog, fn, runOpts{tier: tier, unwind: unwind, maxSteps: 50_000_000, solver: "z3", timeoutMS: 10000, workers: workers}, nil, nil)
+	res := exploreHarness(prog, fn, runOpts{tier: tier, unwind: unwind, maxSteps: 50_000_000, solver: "z3", timeoutMS: 10000, workers: workers, budgetS: budget}, nil, nil)
 	fmt.Printf("%s: paths=%d done=%d assumed=%d viol=%d unsupported=%d unwound=%d internal=%d branches=%d queries=%d solver=%.1fs wall=%.1fs\n",
 		res.Name, res.Stats.paths, res.Stats.done, res.Stats.assumed, res.Stats.violations, res.Stats.unsupported, res.Stats.unwound, res.Stats.internal,
 		res.Stats.branches, res.Stats.queries, res.Stats.solverTime, res.Wall)
@@ -117,7 +121,11 @@ func cmdExplore(pkg, h string, tier, workers, unwind int) int {
 		fmt.Println("INCONCLUSIVE:", k, v)
 	}
 	for _, c := range res.Cands {
-		fmt.Printf("CANDIDATE %s %s %s inputs=%v\n", c.Kind, c.Site, c.Msg, c.Inputs)
+		s := fmt.Sprintf("%v", c.Inputs)
+		if len(s) > 300 {
+			s = s[:300]
+		}
+		fmt.Printf("CANDIDATE %s | %s | %s | inputs=%s\n", c.Key, c.Site, c.Msg, s)
 	}
 	return 0
 }
